@@ -75,7 +75,9 @@ def strategy_(draw, tier):
 BARE_LISTS = [["name"], ["concat('f:', name)"], ["concat_ws('-', name, size)"], ["upper(name)"], ["size + 1"], ["1 + size"],
               ["coalesce(ext, name)"], ["length(name)", "concat('x', ext)"], ["format_size(size, '%.1')"], ["substr(name, 1, 2)"],
               ["greatest(1, size)"], ["least(100, length(name))", "concat('<', name, '>')"], ["replace(name, 'a', 'b')"],
-              ["size"], ["ext"], ["is_dir"], ["concat(name, ext)"], ["power(2, length(ext))"]]
+              ["size"], ["ext"], ["is_dir"], ["concat(name, ext)"], ["power(2, length(ext))"],
+              # functions that read the entry without naming a column
+              ["contains('a')"], ["has_xattr(user.test)"], ["xattr(user.test)", "contains('x')"], ["has_caps()"]]
 
 
 def strategy(tier):
